@@ -448,7 +448,10 @@ def track_py(prog):
                 return True
             if y not in decl:
                 return False
-            c0 = td.get(y) if isinstance(td.get(y), list) else None          # the copy at the `def`
+            key = tuple(s[2:6])
+            if key not in fenv:
+                return True          # the function's first call: its list variant is parsed here, with the copies as they are now
+            c0 = fenv[key].get(y)          # the copy at the function's FIRST call
             return c0 is None or (cur(y) is not None and len(cur(y)) == len(c0))
         if k == 10:
             xs, rs = s[1], s[2]
@@ -459,7 +462,7 @@ def track_py(prog):
                     and all(y in xs for y in ys) and all(x in decl for x in xs))
         return False
 
-    td = {}
+    fenv = {}
 
     def step(s, g, in_setup):
         nonlocal ok
@@ -474,6 +477,8 @@ def track_py(prog):
         if not use_ok(s) or (is_g and (in_setup or k not in (5, 6, 14, 15, 17, 18))) or (in_setup and k in (17, 18)):
             ok = False
         x = s[1]
+        if k == 17 and tuple(s[2:6]) not in fenv:
+            fenv[tuple(s[2:6])] = {z: (list(v) if isinstance(v, list) else None) for z, v in t.items()}
         c = cur(x) if k != 10 else None
         if k in (3, 8, 12):
             v = arg_val(s)
@@ -503,7 +508,6 @@ def track_py(prog):
 
     for s in prog["setup"]:
         step(s, -1, True)
-    td.update({x: (list(v) if isinstance(v, list) else None) for x, v in t.items()})
     at_loop = {x: len(v) for x, v in t.items() if isinstance(v, list)}
     gates = prog.get("gates") or [-1] * len(prog["body"])
     for s, g in zip(prog["body"], gates):
@@ -990,8 +994,9 @@ def gen_fn_part(rng, N, pattern, flavour="in"):
     """len() inside FUNCTION bodies (coq/Device/DListLen.v: fn_env, TCallLen): `def h(P): return P[len(Y) + k]` and
     `def walk(P): for i in range(len(P)): mon.write(P[i])`, defined in front of the main loop after every list declaration.
     The parameter P carries the name of a global list two times out of three - of a list whose parse-time copy has ANOTHER
-    length than the argument of the call -, Y is the parameter or a global list (folded against the copy at the `def`).
-    flavour "out": the global list Y is modified between the `def` and the call (the def-time length is stale)"""
+    length than the argument of the call -, Y is the parameter or a global list (folded against the copy at the function's first call).
+    flavour "out": the global list Y is modified between the function's first call (where its list variant is parsed and
+    len(Y) folded) and a second call"""
     for _ in range(80):
         cs = sorted(set(pattern))
         nl = rng.choice([2, 2, 3])
@@ -1052,10 +1057,13 @@ def gen_fn_part(rng, N, pattern, flavour="in"):
             body.insert(pos, [14, x, x, 1, -1])
             gates.insert(pos, -1)
         if flavour == "out":
-            # len(<global rot>) folded at the `def`, read between the run-time remove and the append
-            x = rot
-            body[1:1] = [[17, x, FRESH + 1, rot, 1, -1]]
+            # len(<global rot>) is folded where the function is parsed - at its FIRST call -; the second call stands between
+            # the run-time remove and the append
+            call = [17, rot, FRESH + 1, rot, 1, -1]
+            body[1:1] = [list(call)]
             gates[1:1] = [-1]
+            body[0:0] = [list(call)]
+            gates[0:0] = [rng.choice([-1, -1, 2])]
         part = {"setup": setup, "body": body, "N": N, "kind": "fn-" + flavour, "gates": gates, "gvals": list(pattern), "t": True}
         if flavour == "out":
             return part
